@@ -68,6 +68,39 @@ def sort_functions_total_rule(ck, ix):
         ck.check(len(set(vals)) == len(vals) and all(v.startswith("[") and v.endswith("]") for v in vals), "G-TABLE", "FullFormatter.dim_order|well-formed", ff.module.relpath, "no duplicates, only [dimension] names", f"dim_order is malformed: {vals}")
         ck.check("[]" in vals, "G-TABLE", "FullFormatter.dim_order|dimensionless-sentinel", ff.module.relpath, "contains the '[]' entry used for dimensionless units", "dim_order lost its '[]' entry: dimensionless units (radian, count, percent) have no position in the dimensional order")
 
+
+def exponent_renderer_rule(ck, ix):
+    """'Formatting never fails ... for float, Decimal and Fraction registries alike': exponents are Fractions in a
+    Fraction registry and Fraction has no 'n' presentation type.  Every place that renders an exponent with the 'n'
+    format goes through a function that first maps a Fraction to int/float; the default exponent renderer of the term
+    joiner and the pretty renderer use it."""
+    FHm = "pint.delegates.formatter._format_helpers"
+    n = 0
+    for mod in (FHm, "pint.formatting", "pint.delegates.formatter.plain", "pint.delegates.formatter.html", "pint.delegates.formatter.latex", "pint.delegates.formatter.full"):
+        m = ix.module(mod)
+        # (a) defaults of exp_call parameters
+        for f in m.all_functions:
+            if not isinstance(f.node, (ast.FunctionDef, ast.AsyncFunctionDef)):
+                continue
+            args = f.node.args
+            allargs = args.args + args.kwonlyargs
+            defaults = [None] * (len(args.args) - len(args.defaults)) + list(args.defaults) + list(args.kw_defaults)
+            for a, dflt in zip(allargs, defaults):
+                if a.arg == "exp_call" and dflt is not None:
+                    n += 1
+                    ck.check("{:n}" not in norm(dflt), "G-EXH", f"exponent-renderer|{mod.split('.')[-1]}.{f.name}|default-accepts-every-exponent-type", f.loc(dflt), f"default exponent renderer `{norm(dflt)}`",
+                             f"the default exponent renderer `{norm(dflt)}` applies the 'n' format directly: a Fraction exponent (non_int_type=Fraction registries) raises ValueError, so str(unit) fails")
+            # (b) f-strings with :n applied to a parameter named like an exponent
+            for js in walk_local(f.node):
+                if isinstance(js, ast.FormattedValue) and js.format_spec is not None and norm(js.format_spec) in ("f'n'", "'n'") and isinstance(js.value, ast.Name):
+                    guard = any(isinstance(c, ast.Call) and call_name(c) == "isinstance" and len(c.args) == 2 and norm(c.args[0]) == js.value.id and "Fraction" in norm(c.args[1]) for c in walk_local(f.node))
+                    if f.name in ("format_number",):
+                        continue  # magnitudes: dispatched on type before formatting
+                    n += 1
+                    ck.check(guard, "G-EXH", f"exponent-renderer|{mod.split('.')[-1]}.{f.name}|n-format-guarded-for-Fraction", f.loc(js), "a Fraction is mapped to int/float before the 'n' format",
+                             f"`{{{js.value.id}:n}}` in {f.name} is applied without mapping a Fraction first: exponents of Fraction registries cannot be rendered")
+    ck.floor("G-EXH", n, 2, "exponent render sites")
+
 def run(ck, ix, tier):
     ck.rule("G-TABLE", "layout tables of the writers agree with the documented format and with the reader's alphabet")
     # ------------------------------------------------------------ (c) interface completeness
@@ -218,6 +251,7 @@ def run(ck, ix, tier):
     # ------------------------------------------------------------ memo discipline of the format helpers
     lru_inventory_rule(ck, ix)
     sort_functions_total_rule(ck, ix)
+    exponent_renderer_rule(ck, ix)
     return EXPLANATION
 
 
